@@ -757,6 +757,7 @@ impl<'de> Deserializer<'de> {
                 key_text_fast: false,
                 #[cfg(feature = "bignum")]
                 value_bignum_fast: None,
+                wire_extra: Vec::new(),
             },
         ))
     }
@@ -1281,10 +1282,34 @@ impl<'de> de::Deserializer<'de> for &mut Deserializer<'de> {
                 let w = self.table.trace_type_with_depth(w, &self.recursion_depth)?;
                 match (e.as_ref(), w.as_ref()) {
                     (TypeInner::Record(ref e), TypeInner::Record(ref w)) => {
+                        // Wire entries without a field 0 or 1: the key or value reads from
+                        // `null`, like any other record field that is absent on the wire.
+                        let w: std::borrow::Cow<[Field]> =
+                            if w.len() >= 2 && *w[0].id == Label::Id(0) && *w[1].id == Label::Id(1)
+                            {
+                                w[..].into()
+                            } else {
+                                let mut fields = Vec::with_capacity(w.len() + 2);
+                                let mut rest = &w[..];
+                                for id in 0..2 {
+                                    match rest.first() {
+                                        Some(f) if *f.id == Label::Id(id) => {
+                                            fields.push(f.clone());
+                                            rest = &rest[1..];
+                                        }
+                                        _ => fields.push(Field {
+                                            id: Label::Id(id).into(),
+                                            ty: TypeInner::Null.into(),
+                                        }),
+                                    }
+                                }
+                                fields.extend_from_slice(rest);
+                                fields.into()
+                            };
                         match (&e[..], &w[..]) {
                             (
                                 [Field { id: e_id0, ty: ek }, Field { id: e_id1, ty: ev }],
-                                [Field { id: w_id0, ty: wk }, Field { id: w_id1, ty: wv }],
+                                [Field { id: w_id0, ty: wk }, Field { id: w_id1, ty: wv }, wire_rest @ ..],
                             ) if **e_id0 == Label::Id(0)
                                 && **e_id1 == Label::Id(1)
                                 && **w_id0 == Label::Id(0)
@@ -1292,6 +1317,10 @@ impl<'de> de::Deserializer<'de> for &mut Deserializer<'de> {
                             {
                                 let expect = (ek.clone(), ev.clone());
                                 let wire = (wk.clone(), wv.clone());
+                                // further fields of the wire entries (an upgraded sender):
+                                // skipped after each value, as for any other record
+                                let wire_extra: Vec<Type> =
+                                    wire_rest.iter().map(|f| f.ty.clone()).collect();
                                 let len = self.read_len()?;
 
                                 let key_text_fast = matches!(ek.as_ref(), TypeInner::Text)
@@ -1329,6 +1358,7 @@ impl<'de> de::Deserializer<'de> for &mut Deserializer<'de> {
                                         key_text_fast,
                                         #[cfg(feature = "bignum")]
                                         value_bignum_fast,
+                                        wire_extra,
                                     },
                                 ));
                                 self.text_fast_path = false;
@@ -1478,6 +1508,7 @@ enum Style {
         key_text_fast: bool,
         #[cfg(feature = "bignum")]
         value_bignum_fast: Option<BigNumFastPath>,
+        wire_extra: Vec<Type>,
     },
 }
 
@@ -1783,6 +1814,7 @@ impl<'de> de::MapAccess<'de> for Compound<'_, 'de> {
                 key_text_fast,
                 #[cfg(feature = "bignum")]
                 value_bignum_fast,
+                ..
             } => {
                 if *len == 0 {
                     return Ok(None);
@@ -1826,6 +1858,7 @@ impl<'de> de::MapAccess<'de> for Compound<'_, 'de> {
                 key_text_fast,
                 #[cfg(feature = "bignum")]
                 value_bignum_fast,
+                wire_extra,
                 ..
             } => {
                 #[cfg(feature = "bignum")]
@@ -1844,7 +1877,18 @@ impl<'de> de::MapAccess<'de> for Compound<'_, 'de> {
                 }
                 self.de.expect_type = expect.1.clone();
                 self.de.wire_type = wire.1.clone();
-                seed.deserialize(&mut *self.de)
+                let value = seed.deserialize(&mut *self.de)?;
+                if !wire_extra.is_empty() {
+                    #[cfg(feature = "bignum")]
+                    {
+                        self.de.bignum_vec_fast_path = None;
+                    }
+                    for ty in wire_extra {
+                        self.de.wire_type = ty.clone();
+                        de::Deserializer::deserialize_ignored_any(&mut *self.de, de::IgnoredAny)?;
+                    }
+                }
+                Ok(value)
             }
             _ => {
                 self.de.add_cost(1)?;
